@@ -101,3 +101,32 @@ package transport
 //gvc:  sink load requires same: recv == l
 //gvc:  ensures fresh: err == nil ==> calls("load") == 1
 //gvc:end
+
+// Request readers (C34: pkt-lines of every payload length up to 65516 are
+// read). PeekLine looks at a whole packet in the reader's buffer, so the
+// buffered readers it is given hold a packet of the maximal size (65520
+// bytes); a default bufio.Reader (4096) refuses every longer first line.
+//gvc:func ReceivePack
+//gvc:  props C34
+//gvc:  theory int
+//gvc:  opt coarse
+//gvc:  opt frame args
+//gvc:  sink PeekLine requires room: arg0.#bufsize >= 65520
+//gvc:end
+
+//gvc:func UploadPack
+//gvc:  props C34
+//gvc:  theory int
+//gvc:  opt coarse
+//gvc:  opt frame args
+//gvc:  sink PeekLine requires room: arg0.#bufsize >= 65520
+//gvc:end
+
+// NewStreamSession: the reader DiscoverVersion peeks into is the session's.
+//gvc:func NewStreamSession
+//gvc:  props C34
+//gvc:  theory int
+//gvc:  opt coarse
+//gvc:  opt frame args
+//gvc:  sink DiscoverVersion requires room: arg0.#bufsize >= 65520
+//gvc:end
